@@ -33,6 +33,14 @@ func extNonNil(e *Env, fr *Frame, fn *ssa.Function, args []Value, rt types.Type,
 	return v
 }
 
+// extStatusError: grpc status.Error(code, msg) is nil exactly for codes.OK (0)
+func extStatusError(e *Env, fr *Frame, fn *ssa.Function, args []Value, rt types.Type, st *State) Value {
+	v := e.freshValue(rt, "err").(*Iface)
+	code := e.flatten(args[0])[0]
+	e.assume(mkEq(mkEq(v.T, "0"), mkEq(code, "0")))
+	return v
+}
+
 var externs map[string]externFn
 
 func init() {
@@ -66,6 +74,8 @@ func init() {
 	"slices.DeleteFunc":       extSlicesDeleteFunc,
 	"slices.SortFunc":         extSlicesSortFunc,
 	"math.Ceil":               extMathCeil,
+	"google.golang.org/grpc/status.Error":  extStatusError,
+	"google.golang.org/grpc/status.Errorf": extStatusError,
 	"context.WithCancel":      extNoop,
 	"context.Background":      extNoop,
 	"(*strings.Builder).WriteString": extNoop,
@@ -120,8 +130,17 @@ func findIfaceExtern(t types.Type, m *types.Func) ifaceExternFn {
 		return func(e *Env, fr *Frame, recv *Iface, m *types.Func, args []Value, rt types.Type, st *State) Value {
 			return e.freshValue(rt, "ctx")
 		}
-	case "hash.Hash.Write", "hash.Hash.Sum", "io.Writer.Write":
-		return nil
+	case "hash.Hash.Write", "hash.Hash.Sum":
+		// the digest state of a hash.Hash is not modelled: no effect on modelled state, no panic
+		// on a non-nil receiver, unspecified results
+		return func(e *Env, fr *Frame, recv *Iface, m *types.Func, args []Value, rt types.Type, st *State) Value {
+			e.panicCheck(fr, "nil", st, mkNot(mkEq(recv.T, "0")))
+			e.trust("hash.Hash." + m.Name() + ": digest state not modelled (no effect on modelled state)")
+			if noResult(rt) {
+				return nil
+			}
+			return e.freshValue(rt, "hash")
+		}
 	}
 	return nil
 }
